@@ -54,6 +54,7 @@ type group struct {
 	IdSeed  uint64  `json:"id_seed"`
 	Probes  []probe `json:"probes"`
 	Sleeper bool    `json:"sleeper,omitempty"`
+	OrMode  string  `json:"or_mode,omitempty"` // family orport: the probes go to the real serverHandler (child process), ORPort ok | refuse | hangup
 }
 
 type worker struct {
@@ -205,7 +206,7 @@ type facRef struct {
 }
 
 func violate(sig, kind, desc string, g group, upto int, w *worker) {
-	rc := group{IdSeed: g.IdSeed, Sleeper: g.Sleeper, Probes: append([]probe(nil), g.Probes[:upto+1]...)}
+	rc := group{IdSeed: g.IdSeed, Sleeper: g.Sleeper, OrMode: g.OrMode, Probes: append([]probe(nil), g.Probes[:upto+1]...)}
 	tail := w.srv.Log
 	if len(tail) > 3 {
 		tail = tail[len(tail)-3:]
@@ -837,6 +838,22 @@ func main() {
 			fmt.Println("cannot load replay:", err)
 			r.Finish()
 		}
+		if g.OrMode != "" {
+			bin, err := buildOrHook()
+			if err != nil {
+				r.Violate("orport-hook-build", "correspondence", err.Error(), g)
+				r.Finish()
+			}
+			hk, err := startOrHook(bin)
+			if err != nil {
+				r.Violate("orport-hook-build", "correspondence", err.Error(), g)
+				r.Finish()
+			}
+			for try := 0; try < 3 && !runOrGroup(workers[0], hk, g); try++ {
+			}
+			hk.stop()
+			r.Finish()
+		}
 		for try := 0; try < 3; try++ {
 			if runGroup(workers[0], g, true) {
 				break
@@ -924,6 +941,34 @@ func main() {
 				runGroup(w, g, true)
 			}(i, g)
 		}
+	}
+	// family orport: the glue (serverHandler) around WrapConn, in a child process
+	{
+		var orGroups []group
+		org := vlib.NewRng(r.Seed ^ 0x0790)
+		for i, n := 0, r.Scale(4, 20); i < n; i++ {
+			orGroups = append(orGroups, genOrGroups(org.Fork())...)
+		}
+		wg.Add(1)
+		go func() {
+			defer wg.Done()
+			bin, err := buildOrHook()
+			if err != nil {
+				r.Violate("orport-hook-build", "correspondence", err.Error(), group{})
+				return
+			}
+			hk, err := startOrHook(bin)
+			if err != nil {
+				r.Violate("orport-hook-build", "correspondence", err.Error(), group{})
+				return
+			}
+			defer hk.stop()
+			ow := &worker{srv: &srvh.Srv{D: r.Driver("o4srv")}, ref: &o4h.Ref{D: r.Driver("o4ref")}}
+			for _, g := range orGroups {
+				for try := 0; try < 3 && !runOrGroup(ow, hk, g); try++ {
+				}
+			}
+		}()
 	}
 	ch := make(chan group)
 	for _, w := range workers {
